@@ -193,7 +193,50 @@ pub fn run(o: &Opts) {
       out.nontrivial(&(l.to_string(), pt.to_string(), files.len()));
     }
   }
+  // ---- `sg scan` with rules scoped to different paths (same number of rules per file, different rules): what a
+  //      worker computed for one file must not be reused for a file to which other rules apply
+  {
+    let dir = fresh_dir(&o.out, "scoped_rules");
+    std::fs::create_dir_all(dir.join("rules")).unwrap();
+    std::fs::write(dir.join("sgconfig.yml"), "ruleDirs: [rules]\n").unwrap();
+    for (id, pat, glob) in [("no-log", "console.log($A)", "src/**"), ("no-var", "var $A = $B", "test/**"), ("no-new", "new $C($$$A)", "lib/**"), ("no-num", "foo(1)", "src/**"), ("no-str", "bar('x')", "test/**"), ("no-tpl", "`t`", "lib/**")] {
+      std::fs::write(dir.join(format!("rules/{id}.yml")), format!("id: {id}\nlanguage: TypeScript\nseverity: warning\nmessage: m\nrule:\n  pattern: {}\nfiles: ['{glob}']\n", serde_json::to_string(pat).unwrap())).unwrap();
+    }
+    let body = "console.log(1)\nvar a = 2\nnew Foo(3)\nfoo(1)\nbar('x')\nlet t = `t`\n";
+    let mut files = vec![];
+    for d in ["src", "test", "lib", "other"] {
+      for i in 0..4 {
+        let rel = format!("{d}/f{i}.ts");
+        std::fs::create_dir_all(dir.join(d)).unwrap();
+        std::fs::write(dir.join(&rel), body).unwrap();
+        files.push(rel);
+      }
+    }
+    let mut union: Vec<Key> = vec![];
+    for rel in &files {
+      let r = sg(&dir, &["scan", "--json=stream", rel], None, 60);
+      union.extend(json_lines(&r.stdout).unwrap_or_default().iter().map(rec_key));
+    }
+    union.sort();
+    out.count("tree:path-scoped-rules");
+    for j in &jobs {
+      for rep in 0..2 {
+        let js = j.to_string();
+        let r = sg(&dir, &["scan", "--json=stream", "-j", &js, "."], None, 120);
+        out.checked();
+        let mut got: Vec<Key> = json_lines(&r.stdout).unwrap_or_default().iter().map(rec_key).collect();
+        got.sort();
+        if r.timed_out || got != union {
+          out.oracle_fail("", &format!("sg scan -j {j} (repeat {rep}) on a project whose rules are scoped to src/**, test/** and lib/**: {} records, the union of the files scanned alone has {}", got.len(), union.len()),
+            json!({"stream": "c17-scoped-rules", "dir": dir.to_string_lossy()}));
+        }
+      }
+    }
+    if !union.is_empty() {
+      out.nontrivial(&("scoped-rules", union.len()));
+    }
+  }
   out.finish("directory trees of 12-20 files in nested directories, 0-5 of them made invalid (at least two not UTF-8 in every faulty tree) (empty, invalid UTF-8 in the middle / at the start, more than 3 MB and 200k lines), given as a single root: `sg run -p .. -j N` \
               for N in {1,2,4,16} (1..16 thorough) x repeated runs x the three JSON styles: the output must be well-formed and the sorted records must equal the union of the records of each file scanned alone (each file exactly once). \
-              Plus two trees of HTML pages hosting <script>/<style> mixed with plain files, searched with a JavaScript and a CSS pattern. As root in this sandbox a file cannot be made unreadable by mode bits: the unreadable case is covered by invalid content only. non-trivial = the pattern has matches");
+              Plus a project scanned with rules scoped to different paths, and two trees of HTML pages hosting <script>/<style> mixed with plain files, searched with a JavaScript and a CSS pattern. As root in this sandbox a file cannot be made unreadable by mode bits: the unreadable case is covered by invalid content only. non-trivial = the pattern has matches");
 }
